@@ -113,7 +113,36 @@ def scan_sources():
         arm = arm[:nxt.start()] if nxt else arm
         if re.search(r"\b%s\(" % re.escape(m.group(1)), arm) and "enter_safepoint" not in arm:
             bare_native += 1
+    # FuncV arms of vm.rs that invoke the built-in directly, outside a safepoint: only the embedding entry points
+    # (the host calls a function on an idle engine) and call/cc's receiver may do that; a script-reachable call path
+    # (apply, tail call through a value, ...) must publish the thread because the built-in may block (F50, seeded C16-2)
+    vmn = re.sub(r"//[^\n]*", "", vm)
+    fns = [(m.start(), m.group(1)) for m in re.finditer(r"\bfn\s+(\w+)\s*[<(]", vmn)]
+
+    def enclosing(pos):
+        name = None
+        for p_, n_ in fns:
+            if p_ < pos:
+                name = n_
+            else:
+                break
+        return name
+    bare_vm = []
+    for m in re.finditer(r"(?:SteelVal::)?FuncV\((\w+)\)\s*=>", vmn):
+        arm = vmn[m.end():m.end() + 500]
+        nxt = re.search(r"\n\s*(?:SteelVal::)?(?:BoxedFunction|MutFunc|Closure|BuiltIn|ContinuationFunction|CustomStruct|FutureFunc)\(", arm)
+        arm = arm[:nxt.start()] if nxt else arm
+        nm = m.group(1)
+        if (re.search(r"\b%s\(\s*&" % re.escape(nm), arm) or re.search(r"\b%s\(\s*self" % re.escape(nm), arm)) and "enter_safepoint" not in arm:
+            bare_vm.append(enclosing(m.start()))
+    unknown = sorted(set(x for x in bare_vm if x not in BARE_VM_ALLOWED))
+    if unknown:
+        raise TieBroken("vm.rs calls a built-in (FuncV) directly, outside a safepoint, in %s: a blocking built-in reached that way "
+                        "is never published to stop-the-world sections" % unknown)
     return lock_sites, update_sites, blocking, wrapped, bare_native
+
+
+BARE_VM_ALLOWED = {"call_function", "call_func_or_else", "call_func_or_else_two_args", "call_func_or_else_many_args", "call_cc"}
 
 
 def coq_bool(b):
@@ -490,6 +519,29 @@ def abort_case(d, jit, units, ck=None, delay=None):
     return None
 
 
+VOID_GLOBAL = re.compile(r"not a procedure or function type not supported: #<void>|index out of bounds: the len is \d+ but the index is \d+ @ [^ ]*env\.rs")
+
+
+def saw_empty_global_table(d):
+    """symptom of a thread running on the drained (default) global table: a global it calls reads as #<void>
+    (before the fix F46: index out of bounds in env.rs)"""
+    return any(VOID_GLOBAL.search(json.dumps(r)) for r in (d.get("res") or []) if isinstance(r, dict) and "ok" not in r)
+
+
+def transient_empty_global_table(case, params):
+    """A thread transiently ran on the emptied global table while another thread's stop-the-world update had drained
+    it: the consequence of the open C15 exit window (a thread that the stopper counts as stopped is running).  Known
+    only as the rare race: not seen again in 3 re-runs of the same program; a reproducible occurrence is a new defect."""
+    return case.get("kind") == "transient-empty-global-table" and case.get("reproduced") is False
+
+
+def empty_table_case(ck, d, units, jit, delay=None):
+    if saw_empty_global_table(d):
+        return {"kind": "transient-empty-global-table", "jit": jit, "units": units, "delay": delay,
+                "reproduced": reproduces(ck, units, jit, delay, saw_empty_global_table)}
+    return None
+
+
 def reproduces(ck, units, jit, delay, symptom, n=3):
     """Re-run a failing case n times with the same settings; True when `symptom(result)` shows up again.
     Used to separate reproducible defects from the rare natural hits of the known C15 windows."""
@@ -544,6 +596,8 @@ def value_tail_block_units(kind):
                 "(define (consume n acc) (if (= n 0) acc (consume (- n 1) (+ acc (recv* r)))))")
     elif kind == "rest-combinator":
         pre += "(define (call-on* f . xs) (f (car xs)))\n(define (consume n acc) (if (= n 0) acc (consume (- n 1) (+ acc (call-on* channel/recv r)))))"
+    elif kind == "apply":
+        pre += "(define (consume n acc) (if (= n 0) acc (consume (- n 1) (+ acc (apply channel/recv (list r))))))"
     else:   # call-with-values consumer
         pre += "(define (consume n acc) (if (= n 0) acc (consume (- n 1) (+ acc (call-with-values (lambda () r) channel/recv)))))"
     return [pre, "(define t (spawn-native-thread (lambda () (consume 3 0))))",
@@ -551,11 +605,19 @@ def value_tail_block_units(kind):
             "(channel/send s 1)", "(c16v-spin 300000 0)", "(#%gc-collect)", "(channel/send s 1)", "(thread-join! t)"]
 
 
+def F18_DONE(v):
+    """C16 is about progress: the program has to complete.  WHICH value main reads from the shared global afterwards is
+    the business of C15 (visibility of assignments; its open exit-window finding makes main read a stale value in a
+    few percent of the runs under load) - any answer of the final unit counts here."""
+    return v == "'\"ok\"" or re.match(r"^I\d+$", v) is not None
+
+
 CORPUS = [("blocking-recv-tail-called-through-a-parameter", value_tail_block_units("parameter"), lambda v: v == "I3"),
           ("blocking-recv-tail-called-through-a-captured-variable", value_tail_block_units("composed"), lambda v: v == "I3"),
           ("blocking-recv-tail-called-through-a-rest-combinator", value_tail_block_units("rest-combinator"), lambda v: v == "I3"),
           ("blocking-recv-as-call-with-values-consumer", value_tail_block_units("cwv"), lambda v: v == "I3"),
-          ("blocking-recv-tail-called-from-native-code", NATIVE_TAIL_BLOCK_UNITS, lambda v: v == "I3"),("F18-concurrent-global-updates", F18_UNITS, lambda v: v == "'\"ok\""),
+          ("blocking-recv-through-apply", value_tail_block_units("apply"), lambda v: v == "I3"),
+          ("blocking-recv-tail-called-from-native-code", NATIVE_TAIL_BLOCK_UNITS, lambda v: v == "I3"),("F18-concurrent-global-updates", F18_UNITS, F18_DONE),
           ("F23-native-box-allocation-vs-collection", F23_UNITS, lambda v: v.count("done") == 6),
           ("blocking-recv-in-native-code", NATIVE_BLOCK_UNITS, lambda v: v == "I40")]
 
@@ -624,6 +686,10 @@ def run(ck):
         if ab:
             ck.failing_input("%s (JIT on): host aborted with a panic inside native code" % name, ab, tag="abort")
             continue
+        et = None if ok else empty_table_case(ck, d, units, jit)
+        if et:
+            ck.failing_input("%s (JIT %s): a thread ran on the emptied global table (a global read as #<void>)" % (name, "on" if jit else "off"), et, tag="void")
+            continue
         if not ok:
             failing += 1
             what = "hang" if d.get("hang") else ("crash rc=%s %s" % (d.get("crash"), d.get("stderr", "")) if "crash" in d else "wrong result")
@@ -644,6 +710,11 @@ def run(ck):
         ab = abort_case(d, jit, render_steel(sp), ck)
         if ab:
             ck.failing_input("generated program (JIT on): host aborted with a panic inside native code", ab, tag="abort")
+            continue
+        et = empty_table_case(ck, d, render_steel(sp), jit)
+        if et:
+            ck.failing_input("generated program (%d worker threads, JIT %s): a thread ran on the emptied global table (a global read as #<void>)"
+                             % (sp["n"], "on" if jit else "off"), et, tag="void")
             continue
         fails = oracle(sp, d)
         # visibility of completed global updates is C15's statement (known spawn-window finding there), not C16's
